@@ -162,10 +162,14 @@ def known_match(case: dict, detail: dict) -> Optional[str]:
         if detail.get('non_plain_step') or detail.get('predicate_meets_wildcard'):
             return 'C20-F1'
         return None
-    if kind == 'partial-crash':
-        return 'C20-F2' if detail.get('attribute_error_on_wildcard') and detail.get('wildcard_on_ancestor_level') else None
+    # (an AttributeError of path= validation with a wildcard on an ancestor level was finding C20-F2, fixed by d54abee:
+    #  no rule, any exception of partial validation is a failure)
     if kind == 'partial':
         return 'C20-F1' if detail.get('non_plain_step') or detail.get('predicate_meets_wildcard') else None
+    if kind == 'partial-scope':
+        # what remains of C20-F3 after c3a1309: a prefix used by an xsi:type inside the selected part is bound by an
+        # element strictly between the root and the selected element; outside such elements the results agree
+        return 'C20-F3' if detail.get('unscoped_type_nodes') and detail.get('same_outside') else None
     return None
 
 
@@ -249,7 +253,7 @@ def check_partial(ctx: Ctx, spec, doc: Doc, xml: bytes, reqs: list, pend: list, 
     from xmlschema import XMLResource
     eg, schema = doc.eg, doc.schema
     depth_max = max(eg.depth.values())
-    static_of, _ = C6.static_lookup(schema, eg)
+    static_of, created_of = C6.static_lookup(schema, eg)
     ns = {'': L.TNS} if spec.tns else None
 
     last_paths: list = []
@@ -260,21 +264,42 @@ def check_partial(ctx: Ctx, spec, doc: Doc, xml: bytes, reqs: list, pend: list, 
         return [C6.canon_err(e) for e in errs]
 
     from xmlschema.utils.etree import etree_getpath
-    f3_nodes = [i for i, d, _, n in eg.flat if n['decls'] and XSI_TYPE in eg.elem[i].attrib]
+    scope = L.in_scope(eg.tree)
+    root_scope = dict(scope[0])
 
-    def f3_explains(selected: list, got: list, want_all: list) -> bool:
-        """C20-F3 (= C06-F10): a selected element that carries its own xmlns declarations and an xsi:type is validated
-        without these declarations; outside such elements the errors agree"""
-        hit = [i for i in f3_nodes if i in selected]
+    def unscoped(selected: list) -> list:
+        """elements inside the selected parts whose xsi:type prefix is resolved differently by the path-driven run:
+        that run knows the declarations of the root (namespace map of the resource), of the selected element itself
+        (schemas.py:1374-1376, commit c3a1309) and of the elements below it (pushed by their parent groups), but
+        not those of the elements strictly between the root and the selected element"""
+        out = []
+        for s_ in selected:
+            for i, d, _, n in eg.flat:
+                if XSI_TYPE not in eg.elem[i].attrib or not eg.in_subtree(i, s_):
+                    continue
+                v = eg.elem[i].attrib[XSI_TYPE]
+                pfx = v.split(':')[0] if ':' in v else ''
+                seen = dict(root_scope)
+                for j in doc.chain(i)[len(doc.chain(s_)) - 1:]:
+                    for p_, u_ in eg.node[j]['decls']:
+                        seen[p_] = u_
+                if seen.get(pfx) != scope[i].get(pfx):
+                    out.append(i)
+        return out
+
+    def f3_explains(selected: list, got: list) -> Optional[dict]:
+        """C20-F3 (what remains): outside the elements found by `unscoped` the errors agree"""
+        hit = unscoped(selected)
         if not hit:
-            return False
+            return None
         bare = lambda q: re.sub(r'\{[^}]*\}', '', q or '')  # noqa
         prefixes = [bare(C6.norm_path(etree_getpath(eg.elem[i], eg.res.root, None, False, True))) for i in hit]
         inside = lambda q: any(bare(q) == pf or bare(q).startswith(pf + '/') for pf in prefixes)  # noqa
         a = [c for q, c in zip(last_paths, got) if not inside(q)]
         b = [eg.canon[i] for i, o in enumerate(eg.owner)
              if any(eg.in_subtree(o, s_) for s_ in selected) and not any(eg.in_subtree(o, h) for h in hit)]
-        return sorted(non_stateful(a)) == sorted(non_stateful(b))
+        return {'kind': 'partial-scope', 'unscoped_type_nodes': hit,
+                'same_outside': sorted(non_stateful(a)) == sorted(non_stateful(b)), 'got': got}
 
     def wildcard_on_levels(nids: list[int]) -> bool:
         for i in nids:
@@ -293,14 +318,10 @@ def check_partial(ctx: Ctx, spec, doc: Doc, xml: bytes, reqs: list, pend: list, 
         ctx.case(case, bool(eg.errors), 'api:partial-all')
         try:
             got = run(path, ns)
-        except AttributeError as ex:
-            detail = {'kind': 'partial-crash', 'attribute_error_on_wildcard': "'XsdAnyElement' object has no attribute 'identities'" in str(ex),
-                      'wildcard_on_ancestor_level': wildcard_on_levels(selected)}
-            fid = known_match(case, detail)
-            ctx.known_hit(fid) if fid else ctx.failure('partial validation raised', case, repr(ex))
-            continue
         except Exception as ex:  # noqa
-            ctx.failure('partial validation raised', case, repr(ex))
+            ctx.failure('partial validation raised', case, {'exception': repr(ex),
+                                                            'wildcard on an ancestor level (C20-F2, fixed by d54abee)':
+                                                            wildcard_on_levels(selected)})
             continue
         want = expected_part(eg, selected)
         npl = not all(doc.all_plain(i) for i in selected)
@@ -318,18 +339,20 @@ def check_partial(ctx: Ctx, spec, doc: Doc, xml: bytes, reqs: list, pend: list, 
                 ctx.known_hit('C20-F4')
                 ctx.count('star-lookup-nonlocal', len(nonloc))
                 continue
-        if non_stateful(got) != want and f3_explains(selected, got, want):
-            ctx.known_hit('C20-F3')
-            continue
         if non_stateful(got) != want:
+            detail = f3_explains(selected, got)
+            if detail is not None and known_match(case, detail):
+                ctx.known_hit('C20-F3')
+                ctx.count('partial-all:unscoped-xsi-type')
+                continue
             detail = {'kind': 'partial', 'got': got, 'want': want, 'non_plain_step': npl}
             fid = known_match(case, detail)
             ctx.known_hit(fid) if fid else ctx.failure('errors of the selected parts differ from the matching part of the full result', case, detail)
         # model (k = 1 uses the lazy driver's static lookup '/root/*' which is what get_element receives)
-        tb = C6.build_tables(eg, schema, static_of) if k == 1 else None
-        if tb is not None and not npl and not any(i in selected for i in f3_nodes):
+        tb = C6.build_tables(eg, schema, static_of, created_of) if k == 1 else None
+        if tb is not None and not tb['alt_failed'] and not npl:
             reqs.append({'op': 'part', 'tree': eg.tree, 'k': 1, 'root': tb['root'], 'segs': tb['segs'], 'govs': tb['govs'],
-                         'static': tb['static'], 'created': []})
+                         'static': tb['static'], 'created': tb['created']})
             pend.append(('part', case, {'got': non_stateful(got), 'table': tb['table']}, None))
     # single elements: relative / absolute, with positions
     cands = [i for i, d, _, _ in eg.flat if d >= 1 and eg.gov.get(i) is not None]
@@ -352,21 +375,20 @@ def check_partial(ctx: Ctx, spec, doc: Doc, xml: bytes, reqs: list, pend: list, 
                 pred_wild = True
         try:
             got = run(path, nsx)
-        except AttributeError as ex:
-            detail = {'kind': 'partial-crash', 'attribute_error_on_wildcard': "'XsdAnyElement' object has no attribute 'identities'" in str(ex),
-                      'wildcard_on_ancestor_level': wildcard_on_levels([nid])}
-            fid = known_match(case, detail)
-            ctx.known_hit(fid) if fid else ctx.failure('partial validation raised', case, repr(ex))
-            continue
         except Exception as ex:  # noqa
-            ctx.failure('partial validation raised', case, repr(ex))
+            ctx.failure('partial validation raised', case, {'exception': repr(ex),
+                                                            'wildcard on an ancestor level (C20-F2, fixed by d54abee)':
+                                                            wildcard_on_levels([nid])})
             continue
         want = expected_part(eg, [nid])
         got_ns = non_stateful(got)
         # a path that selects nothing on the schema yields one "doesn't select any element" error
-        if got_ns != want and f3_explains([nid], got, want):
-            ctx.known_hit('C20-F3')
-            continue
+        if got_ns != want:
+            detail = f3_explains([nid], got)
+            if detail is not None and known_match(case, detail):
+                ctx.known_hit('C20-F3')
+                ctx.count('partial-one:unscoped-xsi-type')
+                continue
         if got_ns != want:
             detail = {'kind': 'partial', 'got': got, 'want': want, 'non_plain_step': npl, 'predicate_meets_wildcard': pred_wild}
             fid = known_match(case, detail)
@@ -389,6 +411,16 @@ def check_partial(ctx: Ctx, spec, doc: Doc, xml: bytes, reqs: list, pend: list, 
         except Collision:
             ctx.count('partial-decode:prefix-collision')
             continue
+        hit = unscoped([nid]) if a != b else []
+        if hit:
+            # C20-F3 (what remains): the values of the elements whose xsi:type is not resolved are left out
+            blanked = all(blank(a, doc, nid, j) and blank(b, doc, nid, j) for j in hit)
+            detail = {'kind': 'partial-scope', 'unscoped_type_nodes': hit, 'same_outside': (a == b) if blanked else True,
+                      'values located': blanked, 'part': repr(a)[:600], 'matching part of the whole': repr(b)[:600]}
+            if known_match(case, detail):
+                ctx.known_hit('C20-F3')
+                ctx.count('partial-decode:unscoped-xsi-type' + ('' if blanked else ':not-located'))
+                continue
         if a != b:
             detail = {'kind': 'partial', 'part': repr(a)[:600], 'matching part of the whole': repr(b)[:600],
                       'non_plain_step': npl, 'predicate_meets_wildcard': pred_wild}
@@ -422,6 +454,39 @@ def navigate(full: Any, doc: Doc, nid: int) -> Any:
             return NOTFOUND
         cur = vals[k - 1]
     return cur
+
+
+def blank(data: Any, doc: Doc, top: int, nid: int) -> bool:
+    """replace, inside the (normalised) decoded value of element `top`, the value of its descendant `nid` by a
+    marker; False when the value cannot be located"""
+    if nid == top:
+        return False
+    chain = doc.chain(nid)[len(doc.chain(top)):]
+    cur = data
+    for depth_, i in enumerate(chain):
+        if not isinstance(cur, dict):
+            return False
+        name = local(doc.eg.node[i]['tag'])
+        k, n = doc.position(i)
+        if name not in cur:
+            return False
+        v = cur[name]
+        last = depth_ == len(chain) - 1
+        if isinstance(v, list):
+            if len(v) != n:
+                return False
+            if last:
+                v[k - 1] = '<<unscoped xsi:type>>'
+                return True
+            cur = v[k - 1]
+        else:
+            if n != 1:
+                return False
+            if last:
+                cur[name] = '<<unscoped xsi:type>>'
+                return True
+            cur = v
+    return False
 
 
 class Collision(Exception):
@@ -464,8 +529,10 @@ def prune_data(x: Any, k: int) -> Any:
 def check_depth(ctx: Ctx, spec, doc: Doc, xml: bytes, reqs: list, pend: list, base: dict) -> None:
     from xmlschema import XMLResource
     eg, schema = doc.eg, doc.schema
-    static_of, _ = C6.static_lookup(schema, eg)
-    tb = C6.build_tables(eg, schema, static_of)
+    static_of, created_of = C6.static_lookup(schema, eg)
+    tb = C6.build_tables(eg, schema, static_of, created_of)
+    if tb is not None and tb['alt_failed']:
+        tb = None
     wild_gov = any(not doc.plain[i] for i in doc.plain)
     try:
         full, _ = schema.decode(XMLResource(xml), validation='lax')
@@ -487,7 +554,7 @@ def check_depth(ctx: Ctx, spec, doc: Doc, xml: bytes, reqs: list, pend: list, ba
             ctx.failure('max_depth changes the errors above the cut', case, {'got': got, 'want': want})
         if tb is not None:
             reqs.append({'op': 'part', 'tree': eg.tree, 'k': k, 'root': tb['root'], 'segs': tb['segs'], 'govs': tb['govs'],
-                         'static': tb['static'], 'created': []})
+                         'static': tb['static'], 'created': tb['created']})
             pend.append(('cut', case, {'got': got, 'table': tb['table']}, None))
         if full is not None and isinstance(full, dict) and not wild_gov:
             try:
